@@ -314,12 +314,22 @@ def values_at(P, fn, target_ev, expr, env0, max_states=5000):
     return out
 
 
+def _assumed(assume_calls, callee):
+    """assume_calls is one value for every call, or a dict callee -> value with the default under None"""
+    if isinstance(assume_calls, dict):
+        return assume_calls.get(callee, assume_calls.get(None))
+    return assume_calls
+
+
 def _subst_calls(e, val):
     """copy of e with every call replaced by the literal val (results of calls on the success skeleton)"""
     if not isinstance(e, dict):
         return e
     if e.get('op') == 'call':
-        return {'op': 'lit', 'c': val, 't': e.get('t', 'i32')}
+        v = _assumed(val, e.get('callee'))
+        if v is None:
+            return e
+        return {'op': 'lit', 'c': v, 't': e.get('t', 'i32')}
     out = dict(e)
     if 'k' in e:
         out['k'] = [_subst_calls(k, val) for k in e['k']]
@@ -413,8 +423,8 @@ def trace_calls(P, fn, env0, max_steps=20000, _depth=0, assume_calls=None, parti
                         if isinstance(d_, tuple) and d_[0] in ('off', 'addr'):
                             sym[ev.name] = d_
                         # the success skeleton: results of calls are taken as `assume_calls` when asked to
-                        elif assume_calls is not None and e0_.get('op') == 'call':
-                            env[ev.name] = assume_calls
+                        elif assume_calls is not None and e0_.get('op') == 'call' and _assumed(assume_calls, e0_.get('callee')) is not None:
+                            env[ev.name] = _assumed(assume_calls, e0_.get('callee'))
             elif ev.k == 'store':
                 lhs, rhs, o = ev.store_parts()
                 l0 = strip_casts(lhs)
